@@ -4,8 +4,8 @@ CONSTANTS
   Senders <- S2
   PopMode = "identity"
   MaxSends = 1
-  DirectSenders <- D1
-  Faults = FALSE
+  DirectSenders <- D0
+  Faults = TRUE
 INVARIANT NoLostUpdate
 INVARIANT OnlySentValues
 INVARIANT NoMoreOftenThanSent
